@@ -237,6 +237,29 @@ Definition prefix_cands (s : st) (n : name) (mbf : bool) : list csent :=
     | None => []
     end) (nodes s).
 
+(* findMatchingDataCSPrefix as written: the node's own entry if acceptable, else the children in the order `ord` gives
+   (Go map iteration: any order), first non-nil answer wins.  `fuel` bounds the depth. *)
+Definition children_of (l : list node) (p : name) : list name :=
+  map n_path (filter (fun nd => negb (is_nil (n_path nd)) && name_eqb (parent (n_path nd)) p) l).
+
+Fixpoint first_some {A B} (f : A -> option B) (l : list A) : option B :=
+  match l with [] => None | x :: t => match f x with Some y => Some y | None => first_some f t end end.
+
+Fixpoint dfs (ord : list name -> list name) (s : st) (mbf : bool) (fuel : nat) (p : name) : option csent :=
+  match get_node (nodes s) p with
+  | None => None
+  | Some nd =>
+    match node_hit s mbf nd with
+    | Some e => Some e
+    | None => match fuel with
+              | O => None
+              | S f => first_some (dfs ord s mbf f) (ord (children_of (nodes s) p))
+              end
+    end
+  end.
+
+Definition depth_of (s : st) : nat := fold_left Nat.max (map (fun nd => length (n_path nd)) (nodes s)) 0%nat.
+
 (* FindMatchingDataFromCS: new state and the list of admissible answers ([] = nil) *)
 Definition find_cs (s : st) (n : name) (cbp mbf : bool) : st * list csent :=
   match exact_node (nodes s) n with
